@@ -358,6 +358,12 @@ func (r *Run) report(all []*Obligation, unbound, engErrs []string) int {
 			}
 			continue
 		}
+		if o.SoftTimeout && o.Answer != "sat" {
+			obligations--
+			byClass[o.Class]--
+			r.Notes = append(r.Notes, "new site in a closed function neither proved nor refuted (undecided, not claimed): "+o.Name)
+			continue
+		}
 		// refuted or undischarged
 		if f := matchFinding(r.Findings, r.Prop, o.Name); f != nil {
 			known++
